@@ -390,18 +390,18 @@ Proof.
   apply andb_true_iff in H2 as [H2 H4]. apply andb_true_iff in H2 as [H2 H3]. apply negb_true_iff in H3. auto.
 Qed.
 
-Lemma gvariant_refuted : exists sel, sel = sel_gvariant /\
-  wf_sel crates sel = true /\ exists St, resolve_sel crates sel = Some St /\ supported St = true
-    /\ forallb (unit_coherent St) (units crates St) = false /\ violated St is_gvariant_split = true.
-Proof. exists sel_gvariant. split; [reflexivity|]. apply refutes_exists. vm_compute. reflexivity. Qed.
+(* the former witness of gvariant_split (fixed by b1eb512d): still resolved with the host/target split, now coherent *)
+Lemma gvariant_now_coherent :
+  wf_sel crates sel_gvariant = true /\
+  match resolve_sel crates sel_gvariant with Some St => coherent St && supported St && negb (known_class St) | None => false end = true.
+Proof. split; vm_compute; reflexivity. Qed.
 
 Lemma blocking_refuted : exists sel, sel = sel_blocking /\
   wf_sel crates sel = true /\ exists St, resolve_sel crates sel = Some St /\ supported St = true
     /\ forallb (unit_coherent St) (units crates St) = false /\ violated St is_blocking_split = true.
 Proof. exists sel_blocking. split; [reflexivity|]. apply refutes_exists. vm_compute. reflexivity. Qed.
 
-(* the host/target split is what makes the first witness fail: the same two requests are coherent when the host build
-   of zvariant is given `gvariant` too (zbus_macros/gvariant) *)
+(* with the host build of zvariant given `gvariant` too (zbus_macros/gvariant) the selection stays coherent *)
 Definition sel_gvariant_repaired : list req := sel_gvariant ++ [ {| q_crate := B "zbus_macros"; q_default := true; q_feats := [B "gvariant"] |} ].
 Lemma gvariant_repaired_coherent :
   match resolve_sel crates sel_gvariant_repaired with Some St => coherent St && supported St | None => false end = true.
@@ -413,7 +413,8 @@ Example partial_instance :
   match resolve_sel crates sel_gvariant_repaired with Some St => negb (known_class St) && (7 <=? length (units crates St)) | None => false end = true.
 Proof. split; vm_compute; reflexivity. Qed.
 
-(* the mechanism of the first witness, edge by edge: the target build of zvariant forwards `gvariant` to the proc-macro
+(* the feature-graph mechanism behind the former finding gvariant_split, edge by edge (still what cargo does; harmless
+   since b1eb512d because zvariant's matches have catch-all arms): the target build of zvariant forwards `gvariant` to the proc-macro
    crate zvariant_derive, which exists only as a host unit; from there it reaches the HOST build of zvariant_utils; the
    host build of zvariant (a dependency of zbus_macros) is never asked for `gvariant` *)
 Definition gv := B "gvariant".
